@@ -223,15 +223,15 @@ Qed.
 
 (* ------------------------------------------------------------ line lemmas *)
 
-Lemma has_suffix1_app a b c : b <> [] -> has_suffix (a ++ b) [c] = has_suffix b [c].
+Lemma has_suffix1_app a b c : b <> [] -> fhas_suffix (a ++ b) [c] = fhas_suffix b [c].
 Proof.
-  intros Hb. unfold has_suffix. rewrite rev_app_distr.
+  intros Hb. rewrite !fhas_suffix_eq. unfold has_suffix. rewrite rev_app_distr.
   destruct (rev b) as [|x rb] eqn:E.
   - exfalso. apply Hb. rewrite <- (rev_involutive b), E. reflexivity.
   - reflexivity.
 Qed.
 
-Lemma has_suffix_brace_body a body : has_suffix body [44] = false -> has_suffix (a ++ 123 :: body) [44] = false.
+Lemma has_suffix_brace_body a body : fhas_suffix body [44] = false -> fhas_suffix (a ++ 123 :: body) [44] = false.
 Proof.
   intros H. destruct body as [|b body].
   - rewrite has_suffix1_app by discriminate. reflexivity.
@@ -334,7 +334,7 @@ Section RT.
     = inl (mkSt (st_done st) c (k :: st_set st) (st_acc st)).
   Proof.
     intros H1 H2 Hv Hne Hset Hf. unfold apply_field. rewrite match_key_hit.
-    rewrite (trim_space_strip ws1 v ws2 H1 H2 Hv).
+    rewrite (ftrim_space_strip ws1 v ws2 H1 H2 Hv).
     destruct v as [|x v]; [contradiction|]. cbn [is_empty]. rewrite Hset, Hf. reflexivity.
   Qed.
 
@@ -390,7 +390,7 @@ Section RT.
     intros Ha Hl. destruct (filler_decomp l Hl) as [ws [cmt [E [Hw Hc]]]].
     assert (forall x, blank x = false -> has_byte x ws = false) as Hno by (intros; apply has_byte_blank; assumption).
     rewrite (step_plain st l ws Ha (filler_not_sep l Hl)).
-    - unfold apply_field. rewrite (match_key_blank ws Hw), (trim_space_blank ws Hw). reflexivity.
+    - unfold apply_field. rewrite (match_key_blank ws Hw), (ftrim_space_blank ws Hw). reflexivity.
     - rewrite E. apply cmt_cut; [apply Hno; reflexivity | exact Hc].
     - apply Hno. reflexivity.
     - apply Hno. reflexivity.
@@ -407,8 +407,8 @@ Section RT.
   Lemma step_accumulate st line :
     st_acc st <> [] -> beq line sep_line = false ->
     has_byte 35 line = false -> has_byte 123 line = false ->
-    has_byte 125 (st_acc st ++ trim_space line) = false ->
-    step pf st line = inl (mkSt (st_done st) (st_cur st) (st_set st) (st_acc st ++ trim_space line)).
+    has_byte 125 (st_acc st ++ ftrim_space line) = false ->
+    step pf st line = inl (mkSt (st_done st) (st_cur st) (st_set st) (st_acc st ++ ftrim_space line)).
   Proof.
     intros Ha Hs H35 H123 H125. unfold step. rewrite Hs, (cut_before_none line 35 H35).
     unfold phase1, phase2. destruct (st_acc st) as [|a0 A] eqn:EA; [contradiction|].
@@ -436,7 +436,7 @@ Lemma braces_ok_cases c : braces_ok c = true ->
      c = pre ++ 123 :: body ++ 125 :: post /\
      has_byte 123 pre = false /\ has_byte 125 pre = false /\
      has_byte 123 body = false /\ has_byte 125 body = false /\
-     has_byte 123 post = false /\ has_byte 125 post = false /\ has_suffix body [44] = false).
+     has_byte 123 post = false /\ has_byte 125 post = false /\ fhas_suffix body [44] = false).
 Proof.
   unfold braces_ok. intros H. destruct (index_byte c 123) as [oi|] eqn:E1.
   - right. destruct (split_braces c) as [[[pre body] post]|] eqn:E; [|discriminate].
@@ -476,8 +476,8 @@ Proof.
 Qed.
 
 Lemma phase2_close acc text A rest : acc <> [] -> has_byte 123 text = false ->
-  acc ++ trim_space text = A ++ 125 :: rest ->
-  has_byte 125 A = false -> has_byte 125 rest = false -> has_suffix A [44] = false ->
+  acc ++ ftrim_space text = A ++ 125 :: rest ->
+  has_byte 125 A = false -> has_byte 125 rest = false -> fhas_suffix A [44] = false ->
   phase2 acc text = inl (Some (A ++ 125 :: rest), []).
 Proof.
   intros Hne H123 E A1 R1 Hs. unfold phase2. destruct acc as [|a0 acc]; [contradiction|].
@@ -521,7 +521,7 @@ Section RTCounter.
     st_acc st = [] -> fstyle_ok fs = true -> valid_value c = true ->
     has_byte 123 pre = false -> has_byte 125 pre = false ->
     has_byte 123 body = false -> has_byte 125 body = false ->
-    has_byte 123 post = false -> has_byte 125 post = false -> has_suffix body [44] = false ->
+    has_byte 123 post = false -> has_byte 125 post = false -> fhas_suffix body [44] = false ->
     key_set KCounter (st_set st) = false ->
     step pf st (field_line KCounter c fs)
     = inl (mkSt (st_done st) (with_counter (st_cur st) c) (KCounter :: st_set st) []).
@@ -558,7 +558,7 @@ Section RTCounter.
       rewrite (apply_counter _ _ c W1 Hv); [reflexivity | exact Hset].
     - destruct (key_name KCounter) eqn:E; [discriminate E | discriminate].
     - reflexivity.
-    - rewrite trim_space_nil, app_nil_r. unfold X, c. norm_app. reflexivity.
+    - rewrite ftrim_space_nil, app_nil_r. unfold X, c. norm_app. reflexivity.
     - rewrite has_byte_app, X2, has_byte_cons, B2. reflexivity.
     - exact Q2.
     - apply has_suffix_brace_body. exact Hsuf.
@@ -587,8 +587,8 @@ Section RTMulti.
     step pf st (indent ++ v) = inl (with_acc st (st_acc st ++ v)).
   Proof.
     intros Ha A125 Hi Htr V35 V123 V125 Hs.
-    assert (trim_space (indent ++ v) = v) as Et.
-    { pose proof (trim_space_strip indent v [] Hi eq_refl Htr) as P. rewrite app_nil_r in P. exact P. }
+    assert (ftrim_space (indent ++ v) = v) as Et.
+    { pose proof (ftrim_space_strip indent v [] Hi eq_refl Htr) as P. rewrite app_nil_r in P. exact P. }
     rewrite (step_accumulate pf st (indent ++ v) Ha Hs).
     - rewrite Et. reflexivity.
     - rewrite has_byte_app, V35, (has_byte_blank 35 indent Hi); reflexivity.
@@ -654,13 +654,13 @@ Section RTMulti.
       apply trim_right_strip; [exact W2 | apply no_trail_last; reflexivity]. }
     rewrite Etr. unfold phase2.
     destruct (X ++ [123]) as [|a0 A] eqn:EA; [destruct X; discriminate|].
-    cbn [is_empty has_byte existsb]. rewrite trim_space_nil, app_nil_r, <- EA.
+    cbn [is_empty has_byte existsb]. rewrite ftrim_space_nil, app_nil_r, <- EA.
     rewrite index_byte_none; [reflexivity|].
     rewrite has_byte_app, HX by auto. reflexivity.
   Qed.
 
   Lemma step_counter_close st A post :
-    st_acc st = A -> A <> [] -> has_byte 125 A = false -> has_suffix A [44] = false ->
+    st_acc st = A -> A <> [] -> has_byte 125 A = false -> fhas_suffix A [44] = false ->
     has_byte 35 post = false -> has_byte 123 post = false -> has_byte 125 post = false ->
     trimmed (125 :: post) = true ->
     step pf st (125 :: post) = apply_field pf (with_acc st []) (A ++ 125 :: post).
@@ -672,7 +672,7 @@ Section RTMulti.
     unfold phase1. destruct A as [|a0 A']; [contradiction|]. cbn [is_empty].
     rewrite (phase2_close (a0 :: A') (125 :: post) (a0 :: A') post); try assumption.
     - reflexivity.
-    - rewrite (trim_space_trimmed _ Htr). reflexivity.
+    - rewrite (ftrim_space_trimmed _ Htr). reflexivity.
   Qed.
 End RTMulti.
 
@@ -1205,3 +1205,44 @@ Section RTAll.
     - injection H as ->. apply list_eqb_refl. apply chart_eqb_refl.
   Qed.
 End RTAll.
+
+(* ------------------------------------------------------------ no limit on the length of a line *)
+
+Lemma has_byte_repeat x c k : x <> c -> has_byte x (repeat c k) = false.
+Proof.
+  intros H. induction k as [|k IH]; [reflexivity|]. cbn [repeat]. rewrite has_byte_cons, IH, orb_false_r.
+  apply N.eqb_neq. exact H.
+Qed.
+
+Lemma repeat_plain n : plain_value (repeat 97 (S n)) = true.
+Proof.
+  unfold plain_value, valid_value. rewrite !has_byte_repeat by discriminate.
+  cbn [repeat is_empty negb andb]. rewrite !andb_true_r. unfold trimmed. apply andb_true_iff. split.
+  - apply no_lead_first; reflexivity.
+  - change (97 :: repeat 97 n) with (repeat 97 (S n)). cbn [repeat]. rewrite repeat_cons. apply no_trail_last; reflexivity.
+Qed.
+
+Definition long_record (n : nat) : chart := mkChart [] (repeat 97 (S n)) [] [] [] [] [] 0%Z 0 [].
+
+Lemma long_record_valid pf rf n : valid_record pf rf (long_record n) = true.
+Proof.
+  unfold valid_record, long_record.
+  cbn [c_title c_description c_issue c_type c_program c_module c_counter c_depth c_error c_version].
+  unfold opt_plain at 2. rewrite repeat_plain, orb_true_r. reflexivity.
+Qed.
+
+(* for every length there is a valid record whose canonical rendering is one
+   line of that length (plus the key), and it parses back: the syntax has no
+   line length limit *)
+Theorem parse_render_any_length pf rf n :
+  render_canonical rf false [long_record n] = key_name KDescription ++ [58; 32] ++ repeat 97 (S n) ++ [10]
+  /\ parse pf (render_canonical rf false [long_record n]) = POk [long_record n].
+Proof.
+  split.
+  - unfold render_canonical, render, unlines. cbn [map render_lines]. unfold record_lines, long_record.
+    cbn [c_title c_description c_issue c_type c_program c_module c_counter c_depth c_error c_version
+         canon_rs rs_sep rs_pre rs_post rs_f rs_multi counter_lines opt_line is_empty repeat map app
+         Z.eqb N.eqb field_line canon_fs fs_ws1 fs_ws2 fs_cmt concat].
+    rewrite ?app_nil_r. unfold field_line, canon_fs. cbn [fs_ws1 fs_ws2 fs_cmt]. norm_app. reflexivity.
+  - apply parse_render_canonical. constructor; [|constructor]. split; [apply long_record_valid | reflexivity].
+Qed.
